@@ -37,6 +37,7 @@ type E5Row struct {
 	Index    int               `json:"index"`     // emits: which of several matching emissions (in source order) this row describes
 	AnySite  bool              `json:"any_site"`  // callguard: the condition under which at least one of the call sites is reached (robust to redundant sites)
 	InLoop   bool              `json:"in_loop"`   // callguard: the condition is taken from the head of the innermost enclosing loop (per iteration), not from the function entry
+	Merge    bool              `json:"merge"`     // emits: all matching emissions together are one conditional emission (if absent {m[k] = 1} else {m[k]++} and m[k]++ are the same row)
 	Assume   string            `json:"assume"`    // a fact about the inputs guaranteed by the caller (e.g. by the lexer that produced the token): valuations violating it are not compared
 }
 
@@ -107,6 +108,79 @@ func (s *symFn) emissions() []emission {
 				tgt := "mapstore:" + s.val(x.Map).String()
 				el := &Sym{Op: "struct", Name: "kv", Fields: []string{"key", "value"}, Kids: []*Sym{s.val(x.Key), s.val(x.Value)}}
 				out = append(out, emission{target: tgt, elem: el, cond: s.pathCond(b), block: b, pos: s.p.InstrPos(in), sf: s})
+			}
+		}
+	}
+	return out
+}
+
+// emissionsInlined: the emissions of fn together with those of the own helpers it calls directly (one level), seen from fn:
+// the helper's parameters are what fn passes, its targets are renamed to fn's, its conditions are conjoined with the condition
+// of the call. A maintainer who moves the three lines that file a record into a helper has not changed what is filed.
+func (s *symFn) emissionsInlined() []emission {
+	out := s.emissions()
+	for _, b := range s.fn.Blocks {
+		for _, in := range b.Instrs {
+			call, ok := in.(*ssa.Call)
+			if !ok {
+				continue
+			}
+			cc := call.Common()
+			callee := cc.StaticCallee()
+			if callee == nil || cc.IsInvoke() || callee == s.fn || !s.p.IsOwnFunc(callee) || len(callee.Blocks) == 0 {
+				continue
+			}
+			if s.inlineOK != nil && !s.inlineOK(callee) {
+				continue
+			}
+			sub := newSymFn(s.p, callee, s.depth+1)
+			sub.inlineOK = s.inlineOK
+			for i, prm := range callee.Params {
+				if i < len(cc.Args) {
+					sub.params[prm] = s.val(cc.Args[i])
+				}
+			}
+			at := s.pathCond(b)
+			for _, e := range sub.emissions() {
+				// only what the helper does once per call: an emission inside a loop of the helper has no counterpart here
+				if h, _ := sub.loopOf(e.block); h != nil {
+					continue
+				}
+				tgt := e.target
+				switch {
+				case strings.HasPrefix(tgt, "param:"):
+					k, err := strconv.Atoi(strings.TrimPrefix(tgt, "param:"))
+					if err != nil || k >= len(cc.Args) {
+						continue
+					}
+					tgt = s.targetName(cc.Args[k])
+				case strings.HasPrefix(tgt, "paramfield:"):
+					rest := strings.TrimPrefix(tgt, "paramfield:")
+					dot := strings.Index(rest, ".")
+					if dot < 0 {
+						continue
+					}
+					k, err := strconv.Atoi(rest[:dot])
+					if err != nil || k >= len(cc.Args) {
+						continue
+					}
+					tgt = ""
+					if prm, ok := cc.Args[k].(*ssa.Parameter); ok {
+						for i, q := range s.fn.Params {
+							if q == prm {
+								tgt = fmt.Sprintf("paramfield:%d%s", i, rest[dot:])
+							}
+						}
+					} else if g := loadedGlobal(cc.Args[k]); g != nil {
+						tgt = "globalstore:" + s.p.GlobalKey(g) + rest[dot:]
+					}
+				case strings.HasPrefix(tgt, "freestore:"), strings.HasPrefix(tgt, "free:"), strings.HasPrefix(tgt, "local:"):
+					continue
+				}
+				if tgt == "" {
+					continue
+				}
+				out = append(out, emission{target: tgt, elem: e.elem, cond: sAnd(at, e.cond), block: b, pos: e.pos, sf: s})
 			}
 		}
 	}
@@ -376,14 +450,23 @@ func runE5Row(p *Program, sp *Spec, c *Collector, r *E5Row) bool {
 		ems := sf.emissions()
 		var matches []emission
 		total := 0
-		for _, e := range ems {
-			if !targetMatches(e.target, r.Target) {
-				continue
+		collect := func() {
+			matches, total = nil, 0
+			for _, e := range ems {
+				if !targetMatches(e.target, r.Target) {
+					continue
+				}
+				total++
+				if tagMatches(e.elem, r.Tag) {
+					matches = append(matches, e)
+				}
 			}
-			total++
-			if tagMatches(e.elem, r.Tag) {
-				matches = append(matches, e)
-			}
+		}
+		collect()
+		if len(matches) == 0 || (r.Total > 0 && total < r.Total) {
+			// fewer emissions than the row describes: the filing may have been moved into a helper
+			ems = sf.emissionsInlined()
+			collect()
 		}
 		if len(matches) > 1 {
 			// several candidates: keep those at the loop depth the row describes
@@ -405,6 +488,36 @@ func runE5Row(p *Program, sp *Spec, c *Collector, r *E5Row) bool {
 			}
 			if len(atDepth) == 1 {
 				matches = atDepth
+			}
+		}
+		if r.Merge && len(matches) > 1 {
+			ok := true
+			for _, e := range matches[1:] {
+				if e.elem.Op != "struct" || matches[0].elem.Op != "struct" || len(e.elem.Kids) != len(matches[0].elem.Kids) || e.target != matches[0].target {
+					ok = false
+				}
+				h0, _ := sf.loopOf(matches[0].block)
+				h1, _ := sf.loopOf(e.block)
+				if h0 != h1 {
+					ok = false
+				}
+			}
+			if ok {
+				last := matches[len(matches)-1]
+				m := emission{target: last.target, block: last.block, pos: matches[0].pos, sf: last.sf, cond: sBool(false)}
+				el := &Sym{Op: "struct", Name: last.elem.Name, Fields: last.elem.Fields}
+				for i := range last.elem.Kids {
+					v := last.elem.Kids[i]
+					for j := len(matches) - 2; j >= 0; j-- {
+						v = sIte(matches[j].cond, matches[j].elem.Kids[i], v)
+					}
+					el.Kids = append(el.Kids, v)
+				}
+				for _, e := range matches {
+					m.cond = sOr(m.cond, e.cond)
+				}
+				m.elem = el
+				matches = []emission{m}
 			}
 		}
 		if r.Index < len(matches) && (r.Index > 0 || r.Total == len(matches)) && len(matches) > 1 {
